@@ -287,7 +287,15 @@ class CoopThread:
         tid = _tid()
         self.s.point(tid)
         if not self.done:
-            self.s.block_until(tid, lambda: self.done)
+            if timeout is not None:
+                # a timed join may give up at any moment: the joiner stays enabled, and when it is picked
+                # while the thread is still running the timeout has fired
+                self.s.block_until(tid, lambda: True)
+                if not self.done:
+                    self.s.record(k='joinTimeout')
+                    return
+            else:
+                self.s.block_until(tid, lambda: self.done)
         self.s.record(k='join')
 
     def is_alive(self):
@@ -732,6 +740,9 @@ class ApiLpmRun:
                 base = lazy_dataset.new({f'k{i}': x for i, x in enumerate(self.items)})
                 if self.via == 'parmap':
                     ds = base.map(pull_log).map(self.fn, num_workers=self.w, buffer_size=self.b)
+                elif self.via == 'batchmap':
+                    # the same stage built by `batch_map` (batches of one example)
+                    ds = base.map(pull_log).batch(1).batch_map(self.fn, num_workers=self.w, buffer_size=self.b)
                 else:
                     ds = base.map(pull_log).map(self.fn).prefetch(self.w, self.b)
                 it = iter(ds.items()) if (self.with_items and self.via == 'parmap') else iter(ds)
@@ -749,6 +760,8 @@ class ApiLpmRun:
                             break
                         if isinstance(x, tuple):
                             x = x[1]
+                        if isinstance(x, list) and self.via == 'batchmap':
+                            x = x[0]
                         pool.events.append({'k': 'result', 'r': x})
                         self.delivered.append(x)
                         k += 1
